@@ -29,13 +29,13 @@ func IsAlt(typeName string) bool { return strings.HasSuffix(typeName, AltSuffix)
 func GoTypeName(typeName string) string { return strings.TrimSuffix(typeName, AltSuffix) }
 
 type Program struct {
-	ID        string      `json:"id"`
-	Seed      uint64      `json:"seed"`
-	Family    string      `json:"family"`
-	NIfaces   int         `json:"nifaces"`
+	ID      string `json:"id"`
+	Seed    uint64 `json:"seed"`
+	Family  string `json:"family"`
+	NIfaces int    `json:"nifaces"`
 	// Sealed: indices of interfaces that also have unexported methods (declared in the
 	// interface package; implementers obtain them by embedding that package's base struct).
-	Sealed []int `json:"sealed,omitempty"`
+	Sealed    []int       `json:"sealed,omitempty"`
 	Types     []*Type     `json:"types"`
 	Instances []*Instance `json:"instances"`
 	Procs     []*Proc     `json:"procs,omitempty"`
@@ -195,6 +195,10 @@ type Instance struct {
 	// post-processor contributes its definition (DefinitionRegistry.RegisterMeta) during the
 	// scanning phase. Only for types without points / configuration fields.
 	Contributed bool `json:"contributed,omitempty"`
+	// ContribBy (with Contributed): the definition is not contributed during the scanning phase
+	// but registered programmatically (DefinitionRegistry.RegisterMeta) from inside the
+	// initialization callback of this other instance, i.e. while the container is refreshing.
+	ContribBy string `json:"contribBy,omitempty"`
 	// Tolerant: the instance's initialization callback copes with a failing lookup (the error
 	// of an InitLookups entry is ignored): a creation that failed inside such a lookup may be
 	// attempted again later in the same start.
@@ -241,7 +245,7 @@ type Rule struct {
 	// | "lookup" (the processor looks the instance named by Sub up through the container from
 	// inside the callback; afterInst / props / before / after)
 	Action string `json:"action"`
-	Sub    string `json:"sub"`    // substitute slot name: rules that share Sub return the same object
+	Sub    string `json:"sub"` // substitute slot name: rules that share Sub return the same object
 	// SubType: type of the substitute object ("" = the component's own type). A wrapper of
 	// another type may implement interfaces the component itself does not.
 	SubType string `json:"subType,omitempty"`
@@ -359,4 +363,19 @@ func (p *Program) IsSealed(k int) bool {
 		}
 	}
 	return false
+}
+
+// Duplicates returns the names registered by more than one instance.
+func (p *Program) Duplicates() []string {
+	cnt := map[string]int{}
+	for _, i := range p.Instances {
+		cnt[p.NameOf(i)]++
+	}
+	var out []string
+	for _, k := range SortedKeys(cnt) {
+		if cnt[k] > 1 {
+			out = append(out, k)
+		}
+	}
+	return out
 }
